@@ -241,3 +241,128 @@ def obs_C03(g, out):
 
 
 P.OBS["C03"] = obs_C03
+
+
+# ---------------------------------------------------------------------------------------------
+# arcs and field-line integrals between the faces and the centre of every cell (oracle, cached)
+def cell_arcs(g):
+    import os
+    from harness import oracles
+
+    cache = os.path.join(g.d, "arcs.npz")
+    if os.path.exists(cache):
+        z = np.load(cache)
+        return {k: z[k] for k in z.files}
+    t = g.extra["tables"]
+    NXf, NYf = t["meshnx"], t["meshny"]
+    an = oracles.analytic_psi_grad(g.cfg)
+    eq = g.eq
+    if an is not None:
+        psi_f, grad = an
+        fpol0, _ = analytic_profiles(g.cfg)
+        from harness import equilibria as E
+
+        psi1d = E.tokamak_arrays(g.cfg["geometry"], g.cfg.get("nR", 65), g.cfg.get("nZ", 65), mirror=g.cfg.get("mirror", False),
+                                 psi1d_rmax=g.cfg.get("psi1d_rmax"))[3]
+        lo, hi = float(np.min(psi1d)), float(np.max(psi1d))
+        psign = g.cfg.get("psi_sign", 1.0)
+
+        def integrand(R, Z):
+            if fpol0 is None:
+                return 0.0
+            gR, gZ = grad(R, Z)
+            f = float(fpol0(np.clip(psi_f(R, Z) / psign, lo, hi)))
+            return f / (R * np.hypot(gR, gZ))       # Bt/(R |Bp|) = (f/R) / (R * |grad psi|/R)
+    else:
+        def grad(R, Z):
+            return -R * float(eq.Bp_Z(R, Z)), R * float(eq.Bp_R(R, Z))
+
+        def integrand(R, Z):
+            bp = np.hypot(float(eq.Bp_R(R, Z)), float(eq.Bp_Z(R, Z)))
+            return float(eq.fpol(eq.psi(R, Z))) / R / (R * bp)
+
+    res = {k: np.full((NXf, NYf), np.nan) for k in ("Alo_c", "Ahi_c", "Ilo_c", "Ihi_c", "Alo_l", "Ahi_l", "Ilo_l", "Ihi_l")}
+    for r in g.extra["regions"]:
+        i = r["id"]
+        x0, x1, y0, y1 = t["rects"][i]
+        Rc, Zc = g.reg["r%d_Rxy_centre" % i], g.reg["r%d_Zxy_centre" % i]
+        Ry, Zy = g.reg["r%d_Rxy_ylow" % i], g.reg["r%d_Zxy_ylow" % i]
+        Rx, Zx = g.reg["r%d_Rxy_xlow" % i], g.reg["r%d_Zxy_xlow" % i]
+        Rk, Zk = g.reg["r%d_Rxy_corners" % i], g.reg["r%d_Zxy_corners" % i]
+        for a in range(x1 - x0):
+            for b in range(y1 - y0):
+                A, I = oracles.follow((Ry[a, b], Zy[a, b]), (Rc[a, b], Zc[a, b]), grad, integrand)
+                res["Alo_c"][x0 + a, y0 + b], res["Ilo_c"][x0 + a, y0 + b] = A, I
+                A, I = oracles.follow((Rc[a, b], Zc[a, b]), (Ry[a, b + 1], Zy[a, b + 1]), grad, integrand)
+                res["Ahi_c"][x0 + a, y0 + b], res["Ihi_c"][x0 + a, y0 + b] = A, I
+                A, I = oracles.follow((Rk[a, b], Zk[a, b]), (Rx[a, b], Zx[a, b]), grad, integrand)
+                res["Alo_l"][x0 + a, y0 + b], res["Ilo_l"][x0 + a, y0 + b] = A, I
+                A, I = oracles.follow((Rx[a, b], Zx[a, b]), (Rk[a, b + 1], Zk[a, b + 1]), grad, integrand)
+                res["Ahi_l"][x0 + a, y0 + b], res["Ihi_l"][x0 + a, y0 + b] = A, I
+    np.savez(cache, **res)
+    return res
+
+
+QLEN = 1e-7     # metres
+QANG = 1e-7     # radians
+
+
+def upper_face(g, name, locname):
+    """value at the upper y-face of every cell from the in-memory arrays (ylow / corners have ny+1 entries)"""
+    t = g.extra["tables"]
+    out = np.full((t["meshnx"], t["meshny"]), np.nan)
+    for r in g.extra["regions"]:
+        a = g.reg["r%d_%s_%s" % (r["id"], name, locname)]
+        x0, x1, y0, y1 = t["rects"][r["id"]]
+        out[x0:x1, y0:y1] = a[: x1 - x0, 1:]
+    return out
+
+
+def obs_C05(g, out):
+    arcs = cell_arcs(g)
+    dy = g.var("dy")
+    out["arc"] = {k: Q(arcs[k], QLEN) for k in ("Alo_c", "Ahi_c", "Alo_l", "Ahi_l")}
+    out["hydy"] = {"centre": Q(g.var("hy") * dy, QLEN), "ylow": Q(g.var("hy_ylow") * dy, QLEN), "xlow": Q(g.var("hy_xlow") * dy, QLEN)}
+    out["pd"] = {"centre": Q(g.var("poloidal_distance"), QLEN), "ylow": Q(g.var("poloidal_distance_ylow"), QLEN),
+                 "xlow": Q(g.var("poloidal_distance_xlow"), QLEN),
+                 "hi_c": Q(upper_face(g, "poloidal_distance", "ylow"), QLEN), "hi_l": Q(upper_face(g, "poloidal_distance", "corners"), QLEN),
+                 "corner": Q(region_assemble(g, "poloidal_distance", "corners"), QLEN)}
+    out["total_pd"] = Q(g.var("total_poloidal_distance"), QLEN)
+    out["nfine"] = int(g.extra["meshuser"].get("finecontour_Nfine", 0))
+
+
+def obs_C06(g, out):
+    arcs = cell_arcs(g)
+    out["int"] = {k: Q(arcs[k], QANG) for k in ("Ilo_c", "Ihi_c", "Ilo_l", "Ihi_l")}
+    out["zs"] = {"centre": Q(g.var("zShift"), QANG), "ylow": Q(g.var("zShift_ylow"), QANG), "xlow": Q(g.var("zShift_xlow"), QANG),
+                 "hi_c": Q(upper_face(g, "zShift", "ylow"), QANG), "hi_l": Q(upper_face(g, "zShift", "corners"), QANG),
+                 "corner": Q(region_assemble(g, "zShift", "corners"), QANG)}
+    out["shiftangle"] = Q(g.var("ShiftAngle"), QANG)
+    has_bt = float(np.nanmax(np.abs(g.var("Btxy")))) > 0
+    out["has_bt"] = 1 if has_bt else 0
+    # dphidy = hy*Bt/(Bp*R)  and ShiftTorsion = centred x-derivative of dphidy
+    for loc in ("centre", "xlow", "ylow"):
+        f = lambda n: g.loc(n, loc)  # noqa: E731
+        d = f("dphidy")
+        pair(out, "DphidyFormula", loc, d, f("hy") * f("Btxy") / (f("Bpxy") * f("Rxy")), relq(d) if np.nanmax(np.abs(d)) > 0 else 1e-12, 20)
+    out["dphidy_q"] = Q(g.var("dphidy"), relq(g.var("dphidy"), rel=1e-8) if has_bt else 1e-12)
+    # for the DDX clause: values scaled by a common quantum so that TLC can form the centred difference
+    qd = relq(g.var("dphidy"), g.var("dphidy_xlow"), rel=1e-7) if has_bt else 1e-12
+    t = g.extra["tables"]
+    fxhi = np.full((t["meshnx"], t["meshny"]), np.nan)      # dphidy at the outer x-face of each cell, from the cell's own region
+    for r in g.extra["regions"]:
+        a = g.reg["r%d_dphidy_xlow" % r["id"]]
+        x0, x1, y0, y1 = t["rects"][r["id"]]
+        fxhi[x0:x1, y0:y1] = a[1:, :]
+    out["ddx"] = {"f_centre": Q(g.var("dphidy"), qd), "f_xlow": Q(g.var("dphidy_xlow"), qd), "f_xhi": Q(fxhi, qd),
+                  "st_times_dx": Q(g.var("ShiftTorsion") * g.var("dx"), qd)}
+    # chi: NaN mask and value relative to zShift/ShiftAngle
+    out["chi_nan"] = {loc: np.isnan(g.loc("chi", loc)).astype(int).tolist() for loc in ("centre", "xlow", "ylow")}
+    if g.extra["tables"]["order"] == ["circular"] and has_bt:
+        # circular equilibrium: ShiftAngle = 2 pi q
+        qprof = g.extra["equser"].get("q_coefficients", [])
+        out["circ_q2pi"] = Qs(2 * np.pi * float(qprof[0]), QANG) if len(qprof) == 1 else NANV
+
+
+P.OBS["C05"] = obs_C05
+P.OBS["C06"] = obs_C06
